@@ -320,9 +320,8 @@ class Alignment(AbstractAlignment):
             continuum = self.continuum
 
         # simple check: verify that all unitary alignments have the same length
-        first_len = len(self.unitary_alignments[0].n_tuple)
         for unit_align in self.unitary_alignments:
-            if len(unit_align.n_tuple) != first_len:
+            if len(unit_align.n_tuple) != len(self.unitary_alignments[0].n_tuple):
                 raise ValueError(
                     f"Unitary alignments {self.unitary_alignments[0]} and"
                     f"{unit_align} don't have the same amount of units tuples")
@@ -402,9 +401,8 @@ class SoftAlignment(Alignment):
             continuum = self.continuum
 
         # simple check: verify that all unitary alignments have the same length
-        first_len = len(self.unitary_alignments[0].n_tuple)
         for unit_align in self.unitary_alignments:
-            if len(unit_align.n_tuple) != first_len:
+            if len(unit_align.n_tuple) != len(self.unitary_alignments[0].n_tuple):
                 raise ValueError(
                     f"Unitary alignments {self.unitary_alignments[0]} and"
                     f"{unit_align} don't have the same amount of units tuples")
